@@ -8,7 +8,7 @@ ASSUMPTIONS = ["formula vocabulary of Exec/Model.v (integers/None, calls, refere
 
 
 def run(tier, seed, rng):
-    return E.run_exec_property("C08", tier, rng, 140, 2500, {'alt': [(0.4, {'p_raise': 0.15, 'p_try': 0.4})], 'p_derived': 0.3}, {'eval': 6, 'setv': 2, 'clearat': 1, 'setf': 1, 'setref': 1, 'setcached': 1, 'scn_ref': 1, 'scn_unc': 1, 'scn_unc2': 1}, (8, 26), ORACLES,
+    return E.run_exec_property("C08", tier, rng, 140, 2500, {'p_fin_world': 0.2, 'alt': [(0.4, {'p_raise': 0.15, 'p_try': 0.4})], 'p_derived': 0.3}, {'eval': 6, 'setv': 2, 'clearat': 1, 'setf': 1, 'setref': 1, 'setcached': 1, 'scn_ref': 1, 'scn_unc': 1, 'scn_unc2': 1}, (8, 26), ORACLES,
         'worlds as C01 incl. failing evaluations; evaluations interleaved with value, formula, flag and reference edits; after every operation the whole graph is compared' + "; non-trivial = graph with at least two edges and an uncached-cells object node; distinct by JSON of the case",
         lambda c, r: any(len(ob['edges'])>=2 for ob in r['obs']) and any(len(n)==1 for ob in r['obs'] for n in ob['nodes']), diff=None)
 
